@@ -21,6 +21,7 @@ import (
 	"os"
 	"sort"
 	"sync"
+	"time"
 
 	"github.com/ipfs/go-cid"
 	mh "github.com/multiformats/go-multihash"
@@ -34,6 +35,7 @@ type model struct {
 	Ranks   map[string]uint64   `json:"ranks"`   // atom key -> rank of its String() form
 	Expect  []string            `json:"expect"`  // failure signatures the engine predicts (informational)
 	ObsWant []string            `json:"obs"`     // observation stream the engine predicts (informational)
+	Gate    []string            `json:"gate"`    // order in which gated goroutines must proceed (schedule replay)
 }
 
 var (
@@ -64,6 +66,8 @@ func Load(path string) error {
 	cidByKey = map[string]cid.Cid{}
 	Failures = nil
 	sigs = nil
+	gateNext = 0
+	gateUsed = map[int]bool{}
 	// CID pool: real CIDs whose String() order realises the model's rank order.
 	n := len(m.Ranks) + 256
 	pool = make([]cid.Cid, 0, n)
@@ -264,4 +268,72 @@ func Atomic(f func()) {
 	atomicMu.Lock()
 	defer atomicMu.Unlock()
 	f()
+}
+
+var (
+	gateMu   sync.Mutex
+	gateCond = sync.NewCond(&gateMu)
+	gateNext int
+	gateUsed = map[int]bool{}
+)
+
+// Gate(key): schedule replay without hooks in the code under test. Under the engine it tags the calling
+// goroutine; the engine records the order in which tagged goroutines enter their next critical section.
+// Natively the call blocks until every goroutine that precedes `key` in that order has been released and
+// has had a moment (settle delay) to run its critical section. Keys the model does not mention pass freely.
+func Gate(key string) {
+	mu.Lock()
+	var order []string
+	if mdl != nil && len(mdl.Expect) > 0 { // only counterexample replays are steered; passing paths run freely
+		order = mdl.Gate
+	}
+	mu.Unlock()
+	if len(order) == 0 {
+		return
+	}
+	gateMu.Lock()
+	idx := -1
+	for i, k := range order {
+		if k == key && !gateUsed[i] {
+			idx = i
+			gateUsed[i] = true
+			break
+		}
+	}
+	if idx < 0 {
+		gateMu.Unlock()
+		return
+	}
+	deadline := time.Now().Add(400 * time.Millisecond)
+	for gateNext < idx && time.Now().Before(deadline) {
+		waitWithTimeout(gateCond, 50*time.Millisecond)
+	}
+	gateMu.Unlock()
+	go func() {
+		time.Sleep(4 * time.Millisecond) // settle: let the released goroutine run its critical section
+		gateMu.Lock()
+		if gateNext <= idx {
+			gateNext = idx + 1
+		}
+		gateMu.Unlock()
+		gateCond.Broadcast()
+	}()
+}
+
+func waitWithTimeout(c *sync.Cond, d time.Duration) {
+	t := time.AfterFunc(d, c.Broadcast)
+	c.Wait()
+	t.Stop()
+}
+
+// CidKey returns the model key ("f#3", "c7") of an atom CID handed out by FreshCid/Cid, "?" for any other CID.
+func CidKey(c cid.Cid) string {
+	mu.Lock()
+	defer mu.Unlock()
+	for k, v := range cidByKey {
+		if v.Equals(c) {
+			return k
+		}
+	}
+	return "?"
 }
